@@ -299,10 +299,11 @@ def run_check(prop, tier, seed):
     ev = {"property_id": prop, "tier": tier, "seed": seed, "level": getattr(mod, "LEVEL", "exploration"),
           "coverage": coverage, "assumptions": list(getattr(mod, "ASSUMPTIONS", [])),
           "wall_s": round(time.time() - t0, 2), "violations": len(merged["violations"])}
-    os.makedirs(os.path.join(ROOT, "evidence"), exist_ok=True)
-    with open(os.path.join(ROOT, "evidence", prop + ".json"), "w") as fh:
-        json.dump(ev, fh, indent=1, default=str)
-        fh.write("\n")
+    if not os.environ.get("VERIF_NO_EVIDENCE"):      # set only by tools/seed_eval.py (runs against scratch trees)
+        os.makedirs(os.path.join(ROOT, "evidence"), exist_ok=True)
+        with open(os.path.join(ROOT, "evidence", prop + ".json"), "w") as fh:
+            json.dump(ev, fh, indent=1, default=str)
+            fh.write("\n")
 
     print("%s tier=%s seed=%d evaluations=%d distinct_nontrivial=%d wall=%.1fs" % (
         prop, tier, seed, merged["evaluations"], distinct, time.time() - t0))
